@@ -5,6 +5,7 @@ MODULES = {
     "rueidis": {"dir": ".", "harness": "rueidis"},
     "rueidiscompat": {"dir": "rueidiscompat", "harness": "rueidiscompat", "package": "rueidiscompat"},
     "rueidisaside": {"dir": "rueidisaside", "harness": "rueidisaside", "package": "rueidisaside"},
+    "rueidislock": {"dir": ".", "pkgdir": "rueidislock", "harness": "rueidislock", "package": "rueidislock"},
     "rueidisprob": {"dir": "rueidisprob", "harness": "rueidisprob", "package": "rueidisprob"},
 }
 
@@ -752,6 +753,55 @@ CHECKS = {
             "freshness of returned values (client-side caching may serve a value until its invalidation arrives) and the setkey ownership check (a late loader must not overwrite a "
             "newer lock) are outside the property as stated: a setkey without the comparison is not detected",
             "loaders ignore their context (a select between a timer and ctx.Done() that become ready in the same fake instant would be resolved by the Go runtime)",
+        ],
+    },
+    "C34": {
+        "level": "exploration",
+        "rule": ("plans: 1-3 Lockers of package rueidislock, each on its own rueidis client and connection to one model node (tracking OPTOUT+NOLOOP, "
+                 "KeyMajority 2-3 = 3-5 keys per name, KeyValidity 1/2/5 s of fake time, ExtendInterval default or a quarter of the validity, SET PXAT or "
+                 "FallbackSETPX), 2-5 tasks running 1-3 sessions 'WithContext / TryWithContext (variant force: also ForceWithContext) - hold 0..8 validities "
+                 "or until the lock context ends - cancel()' on one or two lock names; half of the plans are clean, the others add ghost clients (DEL of some "
+                 "or all keys of a name, PEXPIRE 1 ms, SET of a foreign value, FLUSHALL) and faults (connection reset / EOF / reset after the server "
+                 "executed, stalls of a third to five validities, node restart with refused dials and script cache lost). The Lua scripts the client "
+                 "sends are executed by the model (lualite); lock values come from a per-task counter behind the RandomBytes seam, so every key value "
+                 "names the attempt that wrote it. A mirror of the lock keys is replayed from the model's execution log and compared with the model's "
+                 "dataset after every step. For a holder H (a call that returned a context), 'owns' = keys carrying H's value; 'lost' = a key carrying "
+                 "H's value expired or was deleted/overwritten by a ghost, a forced takeover or an extension that arrived after its own deadline. "
+                 "Rules, evaluated at every quiescent point (every goroutine durably blocked): two-live-holders = two holders of one name have live "
+                 "contexts and neither is 'lost' (names with ForceWithContext not judged); success-without-majority / released-while-live / "
+                 "gave-up-keys-while-live / keys-taken-while-live = a live holder that is not 'lost' owns fewer than KeyMajority keys; "
+                 "loss-not-noticed = a live holder owns fewer than KeyMajority keys for longer than KeyValidity + ExtendInterval + KeyValidity/2 + 1 s; "
+                 "at the end of a run that went idle (only the clock left): waiter-* = a WithContext call whose context was never cancelled is still "
+                 "waiting although nobody holds the name and a majority of its keys is free (sub-rules name the cause chain: asleep-after-own-failure, "
+                 "not-woken-by-same-locker-release-under-noloop, stranded-behind-failed-attempt, missed-wakeup). "
+                 "non-trivial = at least one holder and at least one attempt was refused because a key was held; distinct = distinct event-log hash"),
+        "parts": [
+            {"module": "rueidislock", "scenario": "lock", "quick": 900, "thorough": 40000, "procs": (1, 1, 2)},
+            {"module": "rueidislock", "scenario": "lock", "variant": "force", "quick": 240, "thorough": 10000, "procs": (1, 1, 2)},
+            {"module": "rueidislock", "scenario": "lock", "variant": "trynext", "quick": 120, "thorough": 6000, "procs": (1, 1, 2)},
+        ],
+        "expected_probes": ["acquire-refused-key-held", "waiter-acquired-after-waiting", "extension-executed", "ghost-del-of-live-holder-key",
+                            "holder-key-expired", "loss-noticed", "key-overwritten", "fault-fired:stall", "fault-fired:node-restart",
+                            "fault-fired:reset-after-exec", "noscript-fallback"],
+        "components": {"real": "package github.com/redis/rueidis/rueidislock (NewLocker, With/Try/ForceWithContext, monitors, gates, the acquire/extend/delete Lua scripts) and "
+                               "package github.com/redis/rueidis built from /repo's working tree with -tags verif",
+                       "stubs": dict(STUBS, **{"Lua interpreter": "verifsim/lualite executing the scripts the client sends (EVALSHA / EVAL)",
+                                               "lock values (util.RandomBytes)": "per-task counter installed by the harness through the verif random seam"})},
+        "assumptions": [
+            "NoLoopTracking only: without NOLOOP every extension invalidates the holder's own key and the monitors' select sees timer, context and invalidation together; "
+            "which case runs is a coin toss of the Go runtime that no seed controls (determinism could not be kept), so the default tracking mode is not exercised",
+            "KeyMajority 1 is excluded for the same reason: lock.go starts the monitor of a refused key before try() counts the failure, and with a single key the monitor "
+            "may read the counter first (spurious gate token and a second w--); with three or more keys the counter is settled before the last monitor ends",
+            "WithContext calls get no deadline and no cancellation (a cancellation landing while a wake-up token is pending is again a runtime coin toss); Try/Force calls do",
+            "DisableCache (polling) mode is not exercised",
+            "main part and variant force set TryNextAfter far above any latency the scheduler produces, so attempts do not fail on their own 20 ms time-outs; variant "
+            "trynext uses the default 20 ms / 200 ms in clean plans (that is where waiter-asleep-after-own-failure shows without any fault)",
+            "unregistered exploratory variants of the scenario (not reproducible run by run, hence not parts of the check): optout (default tracking mode), maj1 (KeyMajority 1), "
+            "giveup (directed at gave-up-keys-while-live: caller deadlines 3 ms after an extension timer plus connection faults; about 2 % of its runs diverge between processes)",
+            "'promptly' is taken as KeyValidity + ExtendInterval + KeyValidity/2 + 1 s of fake time: noticing a loss only at the next extension timer passes",
+            "s2c deliveries end at frame boundaries (one reply or push per step) and goroutines parked under one identical identity are released together: both are needed "
+            "because rueidislock reacts to pushes on several goroutines at once",
+            "server and client share one clock (no clock offset between Lockers and Redis)",
         ],
     },
 }
